@@ -283,7 +283,10 @@ func TestC09RaceBinary(t *testing.T) {
 	if !res.Built {
 		t.Fatalf("cannot build: %s", res.BuildErr)
 	}
-	t.Logf("build %.1fs run %.1fs", res.BuildS, res.RunS)
+	t.Logf("build %.1fs run %.1fs, first use (build, control, %d processes) %.1fs", res.BuildS, res.RunS, len(res.First), res.FirstS)
+	if res.FirstWanted != 5 || len(res.First) != 5 || res.FirstControlExit != c09RaceExit {
+		t.Fatalf("first-use runs: wanted %d, ran %d, control exit %d, build error %q", res.FirstWanted, len(res.First), res.FirstControlExit, res.FirstBuildErr)
+	}
 	c := &Case{Stream: "race", Meta: map[string]interface{}{"race": res}}
 	if d := (c09{}).Oracle(c, nil); d != "" {
 		t.Fatalf("race oracle fails on the unchanged tree: %s", d)
@@ -293,5 +296,80 @@ func TestC09RaceBinary(t *testing.T) {
 	c.Meta["race"] = &res2
 	if d := (c09{}).Oracle(c, nil); d == "" {
 		t.Fatal("digest mismatch accepted")
+	}
+}
+
+// The first-use branch of the race oracle (racefirst) on fabricated process results.
+func TestC09FirstUseOracleHandMade(t *testing.T) {
+	control := "==================\nWARNING: DATA RACE\nRead at 0x00c000296088 by goroutine 17:\n  main.lazyLookup()\n"
+	okLine := "ok racefirst goroutines=16 procs=4 bytes=218258\n"
+	mk := func(mod func(*C09RaceResult)) *Case {
+		res := &C09RaceResult{Built: true, ControlExit: 66, ControlOut: control, Exit: 0, Out: "digest abc\nok sets=40\n", WantDigest: "abc",
+			FirstWanted: 5, FirstControlExit: 66, FirstControlOut: control}
+		for i := 0; i < 5; i++ {
+			res.First = append(res.First, C09FirstRun{Procs: c09FirstProcs(i), Exit: 0, Out: okLine})
+		}
+		mod(res)
+		return &Case{Stream: "race", Meta: map[string]interface{}{"race": res}}
+	}
+	if d := (c09{}).Oracle(mk(func(*C09RaceResult) {}), nil); d != "" {
+		t.Fatalf("clean first-use runs rejected: %s", d)
+	}
+	report := "==================\nWARNING: DATA RACE\nWrite at 0x0000007b68c0 by goroutine 17:\n  github.com/dave/jennifer/jen.IsReservedWord()\n      /repo/jen/reserved.go:19 +0x4f8\n  github.com/dave/jennifer/jen.(*File).isValidAlias()\n\nPrevious read at 0x0000007b68c0 by goroutine 9:\n  github.com/dave/jennifer/jen.IsReservedWord()\n==================\n"
+	d := (c09{}).Oracle(mk(func(r *C09RaceResult) { r.First[3] = C09FirstRun{Procs: 8, Exit: 66, Out: report} }), nil)
+	if !strings.Contains(d, "data race") || !strings.Contains(d, "jen.IsReservedWord") || !strings.Contains(d, "process 4 of 5") || !strings.Contains(d, "GOMAXPROCS 8") {
+		t.Fatalf("race on first use not turned into a failure quoting the report: %q", d)
+	}
+	if !strings.Contains(d, "Previous read at") || strings.Contains(d, "==========") {
+		t.Fatalf("condensed report lost the second access or kept the frame: %q", d)
+	}
+	// a report with another exit code still counts
+	d = (c09{}).Oracle(mk(func(r *C09RaceResult) { r.First[0].Out = report + okLine }), nil)
+	if !strings.Contains(d, "data race") {
+		t.Fatalf("race report with exit 0 accepted: %q", d)
+	}
+	crash := "fatal error: concurrent map writes\n\ngoroutine 21 [running]:\ngithub.com/dave/jennifer/jen.IsReservedWord(...)\n\t/repo/jen/reserved.go:21\n"
+	d = (c09{}).Oracle(mk(func(r *C09RaceResult) { r.First[1] = C09FirstRun{Procs: 16, Exit: 2, Out: crash} }), nil)
+	if !strings.Contains(d, "crashed (exit 2)") || !strings.Contains(d, "concurrent map writes") || !strings.Contains(d, "reserved.go:21") {
+		t.Fatalf("runtime crash not reported: %q", d)
+	}
+	differ := "job 7: the output of the concurrent first use differs from the same build run afterwards on one goroutine\n first differing line 12:\n  concurrent: \"\\terr \\\"a.b/err\\\"\"\n  sequential: \"\\terr1 \\\"a.b/err\\\"\"\n"
+	d = (c09{}).Oracle(mk(func(r *C09RaceResult) { r.First[4] = C09FirstRun{Procs: 3, Exit: 3, Out: differ} }), nil)
+	if !strings.Contains(d, "outputs differ") || !strings.Contains(d, "err1") {
+		t.Fatalf("differing outputs not reported: %q", d)
+	}
+	d = (c09{}).Oracle(mk(func(r *C09RaceResult) { r.First[2] = C09FirstRun{Procs: 4, Exit: -1, Out: "signal: killed"} }), nil)
+	if !strings.Contains(d, "racefirst failed (exit -1)") {
+		t.Fatalf("killed process accepted: %q", d)
+	}
+	d = (c09{}).Oracle(mk(func(r *C09RaceResult) { r.First[2].Out = "" }), nil)
+	if !strings.Contains(d, "without its ok line") {
+		t.Fatalf("silent process accepted: %q", d)
+	}
+	d = (c09{}).Oracle(mk(func(r *C09RaceResult) { r.First = r.First[:3] }), nil)
+	if !strings.Contains(d, "only 3 of 5") {
+		t.Fatalf("missing runs accepted: %q", d)
+	}
+	d = (c09{}).Oracle(mk(func(r *C09RaceResult) {
+		r.FirstControlExit, r.FirstControlOut = 0, "control finished without a report\n"
+	}), nil)
+	if !strings.Contains(d, "first use, positive control") {
+		t.Fatalf("silent first-use control accepted: %q", d)
+	}
+	d = (c09{}).Oracle(mk(func(r *C09RaceResult) {
+		r.FirstBuildErr = "go build -race ./racefirst failed (exit 1): undefined: jen.Foo"
+	}), nil)
+	if !strings.Contains(d, "cannot be built") || !strings.Contains(d, "jen.Foo") {
+		t.Fatalf("unbuildable racefirst accepted: %q", d)
+	}
+	// a race found by racejob itself is still reported first
+	d = (c09{}).Oracle(mk(func(r *C09RaceResult) { r.Exit, r.Out = 66, "digest abc\n"+report }), nil)
+	if !strings.Contains(d, "data race") || strings.Contains(d, "first use") {
+		t.Fatalf("racejob's own report lost: %q", d)
+	}
+	for i := 0; i < 40; i++ {
+		if p := c09FirstProcs(i); p < 2 || p > 16 {
+			t.Fatalf("GOMAXPROCS %d for process %d", p, i)
+		}
 	}
 }
